@@ -35,9 +35,10 @@ class EFLRSetsDict(defaultdict):
             return
 
         eflr_set_dict = self[eflr_set_type]
-        if set_name in eflr_set_dict and not eflr_set_dict[set_name].n_items:
+        # (what counts are the items added through this registry: the set may hold items of another logical file)
+        if set_name in eflr_set_dict and not eflr_set_dict[set_name].get_items_added_via(eflr_set_dict):
             eflr_set_dict[set_name] = eflr_set_dict.pop(set_name)
-        if not any(s.n_items for s in eflr_set_dict.values()):
+        if not any(s.get_items_added_via(eflr_set_dict) for s in eflr_set_dict.values()):
             self[eflr_set_type] = self.pop(eflr_set_type)
 
     def add_set(self, eflr_set: EFLRSet) -> None:
@@ -93,5 +94,6 @@ class EFLRSetsDict(defaultdict):
         """Retrieve all EFLRItem instances registered for all instances of given EFLRSet subclass."""
 
         # .get: a mere look-up must not create an (empty) entry - the order of entries is the order of sets in the file
-        for value in self.get(eflr_set_type, {}).values():
-            yield from value.get_all_eflr_items()
+        registry = self.get(eflr_set_type, {})
+        for value in registry.values():
+            yield from value.get_items_added_via(registry)
